@@ -160,6 +160,7 @@ func makeJail(base string, spec *FSSpec) error {
 // createEntries makes the entries below dir.
 func createEntries(target string, entries []FSEntry) error {
 	sep := string(filepath.Separator)
+	lastFile := ""
 	for _, e := range entries {
 		p := filepath.Join(target, e.Path)
 		if !strings.HasPrefix(p, strings.TrimSuffix(target, sep)+sep) {
@@ -177,6 +178,17 @@ func createEntries(target string, entries []FSEntry) error {
 			if err := os.WriteFile(p, []byte(e.Data), 0o644); err != nil {
 				return err
 			}
+			lastFile = p
+		case "h": // a regular file that is a second name (hard link) of the regular file created before it, if any
+			if err := os.MkdirAll(filepath.Dir(p), 0o755); err != nil {
+				return err
+			}
+			if lastFile == "" || os.Link(lastFile, p) != nil {
+				if err := os.WriteFile(p, []byte(e.Data), 0o644); err != nil {
+					return err
+				}
+			}
+			lastFile = p
 		case "l":
 			if err := os.MkdirAll(filepath.Dir(p), 0o755); err != nil {
 				return err
